@@ -50,7 +50,9 @@ LEVEL_TEXT = ("proof (Lean 4, all inputs, 52 theorems; every size/range hypothes
               "_to_positive_index accepts indices below -n (C02_index_defect*, C02_canon_defect, known findings), so "
               "'rejected with IndexError' is proved for i >= n and [-n, n) is proved accepted; the invariants for add_bond "
               "carry the hypothesis i, j >= -n")
-LEVEL_NOTE = ("model tied to bonds.pyx by op-by-op correspondence and a regenerated BondType/aromaticity table; "
+LEVEL_NOTE = ("model tied to bonds.pyx by (1) proof obligations on the regenerated source: signature (C types, defaults, except clause), "
+              "canonical body and exception classes of all 36 modelled functions equal the frozen text next to the model "
+              "(C02_gen_fn_*, C02_gen_param_types/defaults/exception_classes), BondType/aromaticity tables; (2) op-by-op correspondence; "
               "numpy primitives, networkx and C memory safety beyond the proved index bounds are trusted")
 TECHNIQUE = "Lean 4 proof (invariants + refinement of every operation and of whole histories to a finite-map spec, induction over lists, BitVec 32 index arithmetic) + differential correspondence in a crash-contained worker"
 
@@ -242,7 +244,16 @@ def _pyx_canon(sig, body):
         m = re.match(r"cdef\s+(.*)$", ln)
         if m:
             rest = m.group(1)
-            for piece in re.split(r",(?![^\[]*\])", rest):
+            pieces, depth, cur = [], 0, ""
+            for ch in rest + ",":
+                if ch == "," and depth == 0:
+                    pieces.append(cur)
+                    cur = ""
+                else:
+                    depth += ch in "([{"
+                    depth -= ch in ")]}"
+                    cur += ch
+            for piece in pieces:
                 piece = piece.split("=")[0].strip()
                 ident = re.findall(r"[A-Za-z_]\w*", piece)
                 if ident: decl.append(ident[-1])
@@ -1710,7 +1721,7 @@ def _huge_case(rng):
 
 
 def cases(rng, tier):
-    n_valid, n_invalid = (700, 300) if tier == "quick" else (9000, 3000)
+    n_valid, n_invalid = (560, 240) if tier == "quick" else (9000, 3000)
     for _ in range(n_valid):
         ops, _ = _history(rng, rng.choice([1, 2, 3, 5, 8, 12, 18, 25, 30]))
         yield {"kind": "history", "ops": ops}
@@ -1731,7 +1742,7 @@ def cases(rng, tier):
         if rng.random() < 0.5:
             case["probes"] = [_ub_probe(rng, refs)]
         yield case
-    for _ in range(70 if tier == "quick" else 800):
+    for _ in range(60 if tier == "quick" else 800):
         yield _medium_case(rng)
     for _ in range(40 if tier == "quick" else 400):
         yield _huge_case(rng)
